@@ -7,6 +7,7 @@ import QiVerif.Driver.C09
 import QiVerif.Driver.Codec
 import QiVerif.Driver.C07
 import QiVerif.Driver.C17
+import QiVerif.Driver.C10
 open QiVerif.Driver
 
 /-- parameters handed over by ./check from the regenerated constants -/
@@ -36,6 +37,7 @@ def dispatch (p : Params) (st : DState) (line : String) : DState × String :=
     else if op.startsWith "sig." then (st, C09.run ws)
     else if op.startsWith "rd." || op.startsWith "val." || op.startsWith "enc." || op.startsWith "dec." then
       (st, Codec.run ws)
+    else if op.startsWith "c10." then (st, C10.run ws)
     else if op.startsWith "ep." then
       let (s', out) := C17.run st.ep ws
       ({ st with ep := s' }, out)
